@@ -438,6 +438,56 @@ def _taint_in_function(ctx, f, sources):
     return fields, bad, unknown, returned
 
 
+def _id_use(f, call, par) -> str:
+    """'identity' | 'order' | 'unknown': how the value of an `id(x)` call is used"""
+    EQ = (ast.Eq, ast.NotEq, ast.In, ast.NotIn, ast.Is, ast.IsNot)
+
+    def logged(n):
+        q = n
+        while q is not None and not isinstance(q, ast.stmt):
+            p_ = par.get(id(q))
+            if isinstance(p_, ast.Call) and isinstance(p_.func, ast.Attribute) and any(k in p_.func.attr.lower() for k in _LOG_NAMES) and q is not p_.func:
+                return True
+            q = p_
+        return False
+
+    q = par.get(id(call))
+    if isinstance(q, ast.Compare):
+        return "identity" if all(isinstance(o, EQ) for o in q.ops) else "order"
+    if logged(call):
+        return "identity"
+    # element of a set / dict-key / list built from ids: follow the container
+    cont = q
+    while isinstance(cont, (ast.comprehension,)):
+        cont = par.get(id(cont))
+    if isinstance(cont, (ast.SetComp, ast.Set, ast.DictComp, ast.ListComp, ast.List, ast.Tuple, ast.GeneratorExp)) or (isinstance(cont, ast.Call) and norm(cont.func) in ("set", "frozenset", "list", "tuple")):
+        holder = par.get(id(cont))
+        while isinstance(holder, ast.Call) and norm(holder.func) in ("set", "frozenset", "list", "tuple"):
+            holder = par.get(id(holder))
+        if isinstance(holder, ast.Compare):
+            return "identity" if all(isinstance(o, EQ) for o in holder.ops) else "order"
+        if isinstance(holder, ast.Assign) and len(holder.targets) == 1 and isinstance(holder.targets[0], ast.Name):
+            nm = holder.targets[0].id
+            uses = [x for x in body_walk(f.node) if isinstance(x, ast.Name) and x.id == nm and isinstance(x.ctx, ast.Load)]
+            ok = True
+            for u in uses:
+                p_ = par.get(id(u))
+                if isinstance(p_, ast.Compare) and u in p_.comparators and all(isinstance(o, (ast.In, ast.NotIn)) for o in p_.ops):
+                    continue
+                if isinstance(p_, ast.Call) and norm(p_.func) == "len":
+                    continue
+                if logged(u):
+                    continue
+                ok = False
+            return "identity" if (uses and ok) else "unknown"
+        return "unknown"
+    if isinstance(q, ast.Call) and norm(q.func) in ("sorted", "min", "max") or (isinstance(q, ast.keyword) and q.arg == "key") or isinstance(q, (ast.BinOp,)) or (isinstance(q, ast.keyword) and q.arg in ("seed", "random_state")):
+        return "order"
+    if isinstance(q, ast.Lambda):
+        return "order"  # a key function
+    return "unknown"
+
+
 def r14_5(ctx: Ctx):
     """R14.5 what is read from the clock, an entropy source or object identity never reaches a decision of a run: inside the
     functions a run can execute (call-graph closure of DemeTree.__init__ / run / minimize) such a value may only be stored in a
@@ -452,6 +502,8 @@ def r14_5(ctx: Ctx):
     for f, cs, e in _classified_sites(ctx):
         if e[0] not in ("ENTROPY", "CLOCK"):
             continue
+        if e[1] in ("builtins.id", "id") or norm(getattr(cs.node, "func", cs.node)) == "id":
+            continue  # object identity: judged use by use below (an identity test is deterministic, an order is not)
         n_sites += 1
         if f.qualname not in reach and not (f.parent is not None and f.parent.qualname in reach):
             obs.append(ctx.ob("R14.5", f, cs.node, detail=f"`{norm(cs.node)[:50]}` ({e[1]}) is outside every function a run executes"))
@@ -486,9 +538,22 @@ def r14_5(ctx: Ctx):
     for f in ctx.prog.all_functions():
         if f.name == "<module>":
             continue
+        par_f = None
         for c in body_walk(f.node):
             if isinstance(c, ast.Call) and isinstance(c.func, ast.Name) and c.func.id in ("id", "hash") and c.func.id not in ctx.res.env(f):
-                obs.append(ctx.ob("R14.5", f, c, status=VIOLATION if (f.qualname in reach) else OK, detail=f"`{norm(c)[:50]}` depends on object identity / hash seed" + ("" if f.qualname in reach else " (outside every function a run executes)")))
+                st_id = VIOLATION if (f.qualname in reach) else OK
+                why_id = ""
+                if st_id == VIOLATION and c.func.id == "id":
+                    # `id(a) == id(b)`, `id(a) in ids`, a set / dict of ids that is only asked for membership, a log record: the
+                    # ANSWER does not depend on the addresses. An order over ids (sorted, <, iteration over the set) does.
+                    if par_f is None:
+                        par_f = parents_map(f.node)
+                    verdict = _id_use(f, c, par_f)
+                    if verdict == "identity":
+                        st_id, why_id = OK, " - used as an identity test only (the answer does not depend on the address)"
+                    elif verdict == "unknown":
+                        st_id = INCONCLUSIVE
+                obs.append(ctx.ob("R14.5", f, c, status=st_id, detail=f"`{norm(c)[:50]}` depends on object identity / hash seed" + why_id + ("" if f.qualname in reach else " (outside every function a run executes)")))
     # readers of the fields that hold such values
     for f in ctx.prog.all_functions():
         if f.name == "<module>" or not tainted_fields:
@@ -727,6 +792,10 @@ def r14_8(ctx: Ctx):
                 sn2 = m2.self_name()
                 if sn2 is None or m2.name == "__init__":
                     continue
+                if (getattr(m2, "is_property", False) or m2.name in ("__repr__", "__str__", "__len__")) and not any(
+                    isinstance(z, ast.Attribute) and z.attr == m2.name and not (g2 is m2) for g2 in ctx.prog.all_functions() if g2.name != "<module>" and not g2.name.startswith(("plot_", "animate")) and not g2.module.name.startswith("pyhms.utils.visualisation") for z in body_walk(g2.node)
+                ):
+                    continue  # a read-only view for the user (nothing in pyhms outside the plots consults it): still a log
                 par = None
                 names = {a_ for a_, b_ in hit_alias.items() if b_ == a} if m2 is m else set()
                 from ..core import parents_map
